@@ -523,6 +523,8 @@ CHECKS = {
     'C13': {
         'level': 'model_checking',
         'jobs': [
+            T('MC_Inproc', 'Inproc.cfg'), C('inproc', 'TestInproc', 'TraceInproc'),
+            T('MC_Handshaker', 'Handshaker.cfg'), C('handshaker', 'TestHandshaker', 'TraceHandshaker'),
             T('MC_Core', 'Core_C13.cfg'),
             T('MC_Core', 'Core_C13_full.cfg', tiers=('thorough',)),
             C('core', 'TestCore', 'TraceCore', n={'quick': 120, 'thorough': 1500}),
